@@ -36,4 +36,32 @@ R2_FlusherOps == <<>>
 \* proves []Bounded for every capacity and item set)
 Core == INSTANCE BatcherCore WITH Elem <- Items
 CoreSpec == Core!Spec
+\* refinement: Batcher implements the unbounded item ledger BatcherLedger (for which TLAPS proves
+\* NothingLost, NothingTwice, InOrder, FlushMeansDone, RetryBounded and Bounded for every capacity,
+\* retry budget, number of items and number of watchers).  Items are numbered by their position
+\* in the acceptance order.
+Pos(i) == CHOOSE k \in 1..Len(accepted) : accepted[k] = i
+WithStatus(S) == {Pos(i) : i \in {j \in Items : status[j] \in S}}
+L_place == [f \in Flushers |->
+              IF fpc[f] = "start" THEN "none"
+              ELSE IF ffired[f] = "yes" THEN "fired"
+              ELSE IF ffired[f] = "yesDead" THEN "lost"
+              ELSE IF f \in SeqSet(pendFlush) THEN "pend"
+              ELSE IF f \in SeqSet(curFlush) \cup SeqSet(cbRest) THEN "cur"
+              ELSE "lost"]
+Ledger == INSTANCE BatcherLedger WITH
+    Watchers <- Flushers,
+    n <- Len(accepted),
+    lo <- Len(accepted) - Len(pending) + 1,
+    hi <- IF taken = <<>> THEN 0 ELSE Pos(taken[Len(taken)]),
+    inBatch <- isInBatch,
+    dead <- (rpc = "dead"),
+    trunc <- WithStatus({"trunc"}),
+    done <- WithStatus({"done"}),
+    u <- WithStatus({"inflight", "retrywait"}),
+    orphan <- WithStatus({"orphan"}),
+    place <- L_place,
+    snap <- [f \in Flushers |-> Cardinality(fsnap[f])]
+LedgerSpec == Ledger!Spec
+LedgerSafe == Ledger!Safe
 =============================================================================
